@@ -60,7 +60,7 @@ def x_spec(N, sq, ph, compiler=(), target=None, modes=None):
     n = 2 * N
     target = target or f"X{n}_01"
     return {"target": target, "layout": x_layout_text(N, target), "modes": n if modes is None else modes,
-            "compiler": list(compiler), "gate_parameters": x_gate_parameters(N, sq, ph)}
+            "compiler": list(compiler), "gate_parameters": x_gate_parameters(N, sq, ph) if sq is not None else ph}
 
 
 # ---------------------------------------------------------------- ranges (independent of SF)
@@ -92,7 +92,14 @@ def circuit_skeleton(prog):
                 ps.append(float(par_evaluate(p)))
             except Exception:  # noqa: BLE001
                 ps.append(p)
-        out.append((type(c.op).__name__, [r.ind for r in c.reg], ps))
+        name = type(c.op).__name__
+        if getattr(c.op, "dagger", False):
+            # the inverse of these gates is the gate with the negated first parameter (what a device is sent)
+            if name in ("S2gate", "Sgate", "Rgate", "BSgate") and ps and isinstance(ps[0], float):
+                ps[0] = -ps[0]
+            else:
+                ps = ["inverse of " + name]
+        out.append((name, [r.ind for r in c.reg], ps))
     return out
 
 
@@ -128,6 +135,8 @@ def check_against_layout(skel, layout_sk, gate_parameters, tol=1e-9):
                 params.setdefault(a, v)
             elif abs(a - v) > 1e-6:
                 return f"{name}{modes}: fixed layout value {a}, compiled {v}", None
+    if not gate_parameters:      # device without allowed parameter values: any value is valid
+        return None, params
     for a, v in params.items():
         if a not in gate_parameters:
             return f"parameter {a} unknown to the device", None
